@@ -565,13 +565,15 @@ Rerun(d, S, reqs) ==
   IN
   IF cands = << >> THEN [S |-> S, ret |-> "InvalidTaskRerunRequest"]
   ELSE
-  LET S1 == [S EXCEPT !.reruns = Append(@, [k \in 1..Len(cands) |-> cands[k][4]])]
+  \* (fix d308047) the status is resuming while the tasks are prepared: an expression error of a retry policy
+  \* evaluated for a new execution record fails the workflow through the status machine
+  LET S1 == [S EXCEPT !.reruns = Append(@, [k \in 1..Len(cands) |-> cands[k][4]]), !.wf = "resuming"]
       ord == SortSeq(cands, LAMBDA a, b : d.rank[a[1]] < d.rank[b[1]] \/ (a[1] = b[1] /\ a[2] < b[2]))
       S2 == RerunAll(d, S1, ord)
       \* continuable candidates: terminal records with a satisfied transition are no longer terminal
       S3 == [S2 EXCEPT !.seq = [i \in 1..Len(S2.seq) |->
                 IF S2.seq[i].term /\ \E k \in DOMAIN S2.seq[i].next : S2.seq[i].next[k]
                 THEN [S2.seq[i] EXCEPT !.term = FALSE] ELSE S2.seq[i]]]
-  IN [S |-> [S3 EXCEPT !.hasout = FALSE, !.out = << >>, !.wf = "resuming"], ret |-> "ok"]
+  IN [S |-> [S3 EXCEPT !.hasout = FALSE, !.out = << >>], ret |-> "ok"]
 
 =============================================================================
